@@ -101,14 +101,15 @@ def _f15(args):
     return True
 
 
-def run(ctx, res):
-    rng = random.Random(ctx['seed'] * 1000003 + 2)
+def run(ctx, res, focus='c02'):
+    """focus='c08': only the clauses of C08 (error position, accepts/expected, no hang) are reported; the table clauses belong to C02"""
+    rng = random.Random(ctx['seed'] * 1000003 + (2 if focus == 'c02' else 82))
     tier = ctx['tier']
     N = tier_scale(tier, 500, 9000) * (3 if ctx['deepen'] else 1)
     jobs = [(lalrlib.gen_lalr(rng), rng.randrange(1 << 30), 6) for _ in range(N)]
     outs = pmap(_case, jobs, chunksize=4)
     for f in ctx['known']:
-        if f['id'] == 'F15' and f['status'] == 'open':
+        if f['id'] == 'F15' and f['status'] == 'open' and focus == 'c02':
             (st, _r), = pmap(_f15, [(f['witness']['grammar'], f['witness']['text'])], procs=1)
             if st == 'timeout':
                 res.known_hits.append(('F15', f['what'] + ': ' + json.dumps(f['witness'])))
@@ -146,6 +147,8 @@ def run(ctx, res):
     for (kind, rec, r), m in zip(meta, model):
         ex, g = rec['ex'], rec['grammar']
         T = len(ex['terms'])
+        if kind in ('own', 'spec') and focus != 'c02':
+            continue
         if kind == 'own':
             sr = any(any(s[0] == la for s in row['shifts']) for row in ex['rows'] for la, _c in row['las'])
             rr = any(len(c) > 1 for row in ex['rows'] for _la, c in row['las'])
@@ -188,7 +191,8 @@ def run(ctx, res):
                 # F15: a derivation cycle whose reduce/reduce conflict was resolved by priority makes the real driver (and accepts()) reduce forever
                 # region: any reduce/reduce conflict that was resolved by priority (the table is then not an LALR(1) table; with empty or unit rules the driver can reduce forever)
                 region = any(len(c) > 1 for row in ex['rows'] for _la, c in row['las'])
-                f15 = [f for f in ctx['known'] if f['id'] == 'F15' and f['status'] == 'open']
+                from common import load_known_findings
+                f15 = [f for f in load_known_findings() if f['id'] == 'F15' and f['status'] == 'open']     # (the finding belongs to C02; the region also applies when C08 runs this stream)
                 if region and f15:
                     res.count('loop_region_F15')
                 else:
@@ -199,15 +203,20 @@ def run(ctx, res):
             # soundness (always) and completeness (conflict-free) against the verified recogniser
             sr = any(any(s[0] == la for s in row['shifts']) for row in ex['rows'] for la, _c in row['las'])
             rr = any(len(c) > 1 for row in ex['rows'] for _la, c in row['las'])
-            if ok and inlang is False:
-                res.violation('LALR accepts a token string that is not a sentence of the grammar', {'grammar': g, 'text': r['text']}); continue
-            if not ok and inlang is True and not sr and not rr:
-                res.violation('LALR rejects a sentence of a conflict-free grammar', {'grammar': g, 'text': r['text'], 'error': r.get('err')}); continue
-            if (m['outcome'] == 'accept') != ok:
-                res.violation('parse() %s but the model driver on lark\'s own table %s' % ('accepts' if ok else 'rejects', m['outcome']), {'grammar': g, 'text': r['text']}); continue
+            if focus == 'c02':
+                if ok and inlang is False:
+                    res.violation('LALR accepts a token string that is not a sentence of the grammar', {'grammar': g, 'text': r['text']}); continue
+                if not ok and inlang is True and not sr and not rr:
+                    res.violation('LALR rejects a sentence of a conflict-free grammar', {'grammar': g, 'text': r['text'], 'error': r.get('err')}); continue
+                if (m['outcome'] == 'accept') != ok:
+                    res.violation('parse() %s but the model driver on lark\'s own table %s' % ('accepts' if ok else 'rejects', m['outcome']), {'grammar': g, 'text': r['text']}); continue
+            elif (m['outcome'] == 'accept') != ok:
+                continue
             # rows and accepts() after every prefix
             for k, (a, b) in enumerate(zip(r.get('steps', []), m['steps'])):
                 if a['choices'] != sorted(b['choices']):
+                    if focus != 'c02':
+                        break
                     res.violation('choices() after %d tokens is not the row of the automaton state' % k, {'grammar': g, 'text': r['text'], 'code': a['choices'], 'model': b['choices']}); break
                 if a['accepts'] != sorted(b['accepts']):
                     res.violation('accepts() after %d tokens differs from trial feeding on the model driver' % k, {'grammar': g, 'text': r['text'], 'code': a['accepts'], 'model': b['accepts'], 'terms': ex['terms']}); break
